@@ -15,6 +15,7 @@ static const Part kParts[] = {
 	{"C05", "archive-damage", 96, 3200},
 	{"C05", "vol-giant", 150, 6000},
 	{"C06", "map-stream", 10000, 400000},
+	{"C06", "map-damage", 32, 1600},
 	{"C07", "map-damage", 64, 3200},
 	{"C08", "bmp-stream", 20000, 600000},
 	{"C08", "image-damage", 48, 1600},
